@@ -329,7 +329,7 @@ def tie_check(pid: str, thorough: bool = False):
                     out[nm] = "proved"
                 else:
                     out[nm] = "lost: axiom audit of the tie theorem failed"
-        if thorough and pid in ("C03", "C04", "C05", "C06", "C08", "C11", "C13") and all(v == "proved" for v in out.values()):
+        if thorough and pid in ("C03", "C04", "C05", "C06", "C07", "C08", "C11", "C12", "C13") and all(v == "proved" for v in out.values()):
             # the property theorems transported onto the regenerated kernels (Skc/Tie/Source.lean)
             src = strip_lean_comments((LEAN / "Skc" / "Tie" / "Source.lean").read_text())
             ns = ["Skc.Source." + x for x in re.findall(r"^\s*theorem\s+([A-Za-z_][A-Za-z0-9_.']*)", src, flags=re.M)]
